@@ -534,7 +534,7 @@ def _key_path(s, d, f, part, ext):
 
 
 def _read_csv_record(path):
-    df = pd.read_csv(path, header=0)
+    df = pd.read_csv(path, header=0, float_precision="round_trip")   # (exact float parsing)
     return {"index": [int(i) for i in df["index"]],
             "y_true": [_norm(v) for v in df["y_true"]],
             "y_pred": [_norm(v) for v in df["y_pred"]],
@@ -819,6 +819,35 @@ class History:
                            "%s differs from what was predicted" % (
                                i, r.strategy_name, r.dataset_name, f, part))
                     return
+            # class labels are strings ('0', '1', ..): what is read back must be what was stored,
+            # not a number that prints alike
+            if self.scen["kind"] == "tsc" and got:
+                bad = [x for r in got for x in list(r.y_true)[:3] if not isinstance(x, str)]
+                if bad and isinstance(model.frames[got[0].dataset_name]["target"].iloc[0], str):
+                    # (recorded once per scenario at its end: it must not cut the histories short)
+                    if not getattr(self.res, "deferred", None):
+                        self.res.deferred = [("readback_label_type", "[%s] after run %d: class labels "
+                                              "stored as strings are read back from disk as %s (e.g. %r)"
+                                              % (self.label, i, type(bad[0]).__name__, bad[0]))]
+        # saved fitted strategies read back through the store's own API
+        for (s, d, f) in sorted(model.fitted):
+            if (s, d, f, "test") not in model.truth:
+                continue
+            try:
+                with peers.paused():
+                    strat = results.load_fitted_strategy(s, d, f)
+                    frame = model.frames[d]
+                    te = model.fold_map[d][f][1]
+                    got = [_norm(x) for x in strat.predict(frame.iloc[te])]
+            except Exception as e:  # noqa
+                self.v("fitted_strategy_unusable", "after run %d: load_fitted_strategy(%s, %s, %d) "
+                       "raised %s: %s" % (i, s, d, f, type(e).__name__, e), api=True)
+                return
+            if got != model.truth[(s, d, f, "test")]["y_pred"]:
+                self.v("fitted_strategy_wrong", "after run %d: load_fitted_strategy(%s, %s, %d) returns "
+                       "a strategy that does not reproduce that fold's predictions" % (i, s, d, f),
+                       api=True)
+                return
 
     def check_ram(self, i):
         model = self.model
@@ -992,6 +1021,8 @@ def execute(prop, scen):
                     break
     finally:
         shared.close()
+    for cls_, detail_ in getattr(res, "deferred", None) or []:
+        res.violate("C19." + cls_, detail_, store=scen["store"], what="labels")
     res.digest = digest.hexdigest()[:16]
     return res
 
